@@ -148,7 +148,7 @@ class Check:
                 analysed=self.analysed, not_decided=self.not_decided,
                 known_findings_printed=[k.get("what") for _, k in known_hits],
                 checker_cmd="python3 bin/check.py %s --tier %s" % (self.pid, self.tier),
-                trusted_base=["clang-14 front end", "opt-14 mem2reg", "tools/irfacts.cc", "lib/*.py rule engines"],
+                trusted_base=["clang-14 front end (IR and, for the signed-shift rule, its JSON AST dump)", "opt-14 mem2reg", "tools/irfacts.cc", "lib/*.py rule engines"],
                 **self.extra),
             assumptions=self.assumptions,
             wall_s=round(time.time() - self.t0, 3),
